@@ -10,11 +10,21 @@
    density 1 / count: C09) and then applying a kernel invariant for the slice leaves gamma_one invariant.
    C01_isir_invariant: the same for the threshold-0 scheme, proved separately (iterated SIR).
 
-   What is NOT proved here: that PhyClone's concrete q / om instantiate the premises (positivity of every weight,
-   proposal mass one: C08; symmetric ESS criterion) - those are checked on the implementation by the exact
-   transition matrices of harness/pv/props/C01.py. *)
+   Assembled (second half of this file): the same update over the REAL placement grammar (Model/Grammar.v; states = all
+   clone forests over n data points, alphabet = C08's all_places, order density = C09's 1 / count), with PhyClone's three
+   proposal densities, its resampling criterion and its schedule plugged in: C01_phyclone_update_invariant_{bootstrap,
+   fully_adapted,semi_adapted}.  The ONLY premise left there is about the target: a positive intermediate target gt on
+   histories whose value on complete paths is gamma(tree) x order density - i.e. that the incremental weights the code
+   computes are the ratios log_p(new) - log_p(old) (+ order-density ratio) with the last-step correction to log_p_one
+   (C08_weights_telescope proves the telescoping; C03 says what log_p / log_p_one are; the check compares the weights).
+
+   What is NOT proved here: that the Python code IS this model - decided on every run by the correspondence (the Coq
+   sampler on tables read off the real kernel against the exact outcome distribution of the real sampler; the grammar
+   against the trees the real proposals build and the retained paths the real sampler reconstructs; the state space
+   against an independent enumeration) and, for the property itself, by the exact transition matrices of
+   harness/pv/props/C01.py.  Float rounding is outside the model. *)
 From PV Require Import Model.Isir Proofs.IsirProofs Model.Csmc Proofs.CsmcSupport Proofs.CsmcInvariant Proofs.AuxVar Proofs.CsmcTarget Proofs.PgAssembly.
-From PV Require Import Model.Grammar Model.Proposals Proofs.GrammarTable Proofs.GrammarPG Proofs.GrammarForests Proofs.GrammarProposals.
+From PV Require Import Model.Grammar Model.Proposals Proofs.GrammarTable Proofs.GrammarPG Proofs.GrammarForests Proofs.GrammarProposals Model.CsmcCases Proofs.CsmcEss.
 
 Theorem C01_csmc_invariant :
   forall (A : Type) (q : list A -> dist A) (om : list A -> Qc) (rs : @swarm A -> bool) (n : nat),
@@ -132,6 +142,51 @@ Theorem C01_pg_update_invariant_semi_adapted :
       (pg_update (gorders n) (gcden n) (gsup on) (q_semi on gt) gt (gdec n) (genc n on) rs N ops).
 Proof. exact pg_update_invariant_semi_adapted. Qed.
 Print Assumptions C01_pg_update_invariant_semi_adapted.
+
+(* the resampling criterion PhyClone uses (relative effective sample size <= threshold) is symmetric, and its schedule for
+   n data points (initial step, then resample-if-needed before each extension) has n steps: with these the update is
+   invariant for every threshold and particle count, for each of the three proposals, with only the target premise left *)
+Theorem C01_ess_criterion_symmetric : forall (A : Type) (thr : Q) (m : nat) (s : @swarm A),
+  ess_rs thr (bring m s) = ess_rs thr s.
+Proof. exact @ess_rs_symmetric. Qed.
+Print Assumptions C01_ess_criterion_symmetric.
+
+Theorem C01_phyclone_update_invariant_bootstrap :
+  forall (n : nat), (1 <= n)%nat ->
+  forall (on : bool) (gam : list (list bool) -> Qc) (gt : list nat -> list place -> Qc),
+    (forall sg p, 0 < gt sg p) ->
+    (forall sg path, In sg (gorders n) -> In path (gpaths n on sg) ->
+       gt sg (rev path) = gam (gdec n sg (rev path)) * gcden n sg (gdec n sg (rev path))) ->
+    forall (thr : Q) (N : nat),
+    forall po : Qc, po < 1 -> (on = true -> 0 < po) -> (on = false -> po = 0) ->
+    invariant (wlist gam (forests n on))
+      (pg_update (gorders n) (gcden n) (gsup on) (q_boot po) gt (gdec n) (genc n on) (ess_rs thr) N (schedule n)).
+Proof. exact phyclone_update_invariant_bootstrap. Qed.
+Print Assumptions C01_phyclone_update_invariant_bootstrap.
+
+Theorem C01_phyclone_update_invariant_fully_adapted :
+  forall (n : nat), (1 <= n)%nat ->
+  forall (on : bool) (gam : list (list bool) -> Qc) (gt : list nat -> list place -> Qc),
+    (forall sg p, 0 < gt sg p) ->
+    (forall sg path, In sg (gorders n) -> In path (gpaths n on sg) ->
+       gt sg (rev path) = gam (gdec n sg (rev path)) * gcden n sg (gdec n sg (rev path))) ->
+    forall (thr : Q) (N : nat),
+    invariant (wlist gam (forests n on))
+      (pg_update (gorders n) (gcden n) (gsup on) (q_full on gt) gt (gdec n) (genc n on) (ess_rs thr) N (schedule n)).
+Proof. exact phyclone_update_invariant_fully_adapted. Qed.
+Print Assumptions C01_phyclone_update_invariant_fully_adapted.
+
+Theorem C01_phyclone_update_invariant_semi_adapted :
+  forall (n : nat), (1 <= n)%nat ->
+  forall (on : bool) (gam : list (list bool) -> Qc) (gt : list nat -> list place -> Qc),
+    (forall sg p, 0 < gt sg p) ->
+    (forall sg path, In sg (gorders n) -> In path (gpaths n on sg) ->
+       gt sg (rev path) = gam (gdec n sg (rev path)) * gcden n sg (gdec n sg (rev path))) ->
+    forall (thr : Q) (N : nat),
+    invariant (wlist gam (forests n on))
+      (pg_update (gorders n) (gcden n) (gsup on) (q_semi on gt) gt (gdec n) (genc n on) (ess_rs thr) N (schedule n)).
+Proof. exact phyclone_update_invariant_semi_adapted. Qed.
+Print Assumptions C01_phyclone_update_invariant_semi_adapted.
 
 (* a closed instance for every n, outlier setting, positive target, particle count and schedule: uniform proposals over
    all_places and the corresponding target-ratio weights - no premise about proposal or weights is left *)
